@@ -67,6 +67,7 @@ class Interp:
         self.active_contract = None     # Contract of the function under verification (loop contracts by key)
         self.ghost_hooks = {}
         self.force_unroll = False
+        self.prune_forks = False
 
     def feasible(self, st, timeout_ms=2000):
         """cheap feasibility test used to prune forks when loops are unrolled symbolically"""
@@ -88,6 +89,23 @@ class Interp:
             yield cond, st
             return
         t = cond.t
+        if self.prune_forks and not self.ctx.spec_depth:
+            # opt-in (per contract): drop a side whose path condition is refuted within a small budget
+            sides = []
+            for side, f in ((True, t), (False, z3.Not(t))):
+                sv = z3.Solver()
+                sv.set('timeout', 150)
+                for h in self.ctx.assumptions + self.ctx.axioms + st.pc:
+                    sv.add(h)
+                sv.add(f)
+                if sv.check() != z3.unsat:
+                    sides.append((side, f))
+            if len(sides) == 1:
+                st.pc.append(sides[0][1])
+                yield sides[0][0], st
+                return
+            if not sides:
+                return
         s2 = st.clone()
         st.pc.append(t)
         s2.pc.append(z3.Not(t))
@@ -872,8 +890,11 @@ class Interp:
         if isinstance(a, SObj) and isinstance(b, SObj):
             if a.oid == b.oid:
                 return a
-            if a.cls is b.cls and a.frozen and b.frozen and set(a.fields) == set(b.fields):
-                return SObj(a.cls, {k: self.ite(c, a.fields[k], b.fields[k]) for k in a.fields}, frozen=True)
+            fa = {k for k in a.fields if not k.startswith('__')}
+            fb = {k for k in b.fields if not k.startswith('__')}
+            if a.cls is b.cls and fa == fb:
+                # a read-only view standing for "a or b" (elements stored into symbolic lists)
+                return SObj(a.cls, {k: self.ite(c, a.fields[k], b.fields[k]) for k in fa}, frozen=True)
         if same_value(a, b):
             return a
         raise EngineError(f'cannot merge values {a!r} / {b!r}')
